@@ -1187,6 +1187,20 @@ def nested_parse(S, inner, j):
     S.fault("nested-call")
 
 
+def process_state(S):
+    """Interpreter-wide settings a library call has no business changing."""
+    import warnings
+
+    return {
+        "recursionlimit": sys.getrecursionlimit(),
+        "sys.path": tuple(sys.path),
+        "cwd": os.getcwd(),
+        "environ": hexdigest(sorted(os.environ.items())),
+        "warnings.filters": len(warnings.filters),
+        "trace": sys.gettrace() is None,
+    }
+
+
 def c_level_probe(S, op, j):
     """The step clock cannot see a loop inside C code (a regular expression that backtracks
     for ever on an unterminated comment, say).  This probe hands such a text to the parser
@@ -1305,9 +1319,14 @@ def exec_c16(plan, role="main", order=None):
                     S.probe("nested_in_pulse_module_fired")
 
                 GS.PULSE_TOP_CALLBACK = cb2
+            ps_before = process_state(S)
             o = seams.outcome_of(fn, S.clock, budget)
             GS.CALLBACK = None
             GS.PULSE_TOP_CALLBACK = None
+            ps_after = process_state(S)
+            if ps_after != ps_before:
+                diff = [k for k in ps_before if ps_before[k] != ps_after[k]]
+                S.viol.add("C16", "leaves_nothing_behind", "process_state_changed", ",".join(diff), "after a call that ended in %s: %s" % (o["kind"], "; ".join("%s: %r -> %r" % (k, ps_before[k], ps_after[k]) for k in diff)[:300]), op=j)
             check_type(S, j, op, o, text, allowed)
             d = S.outcome_digest(o)
             S.twin_ref[str(j)] = list(d)
